@@ -19,7 +19,7 @@ pub mod ax {
         ensures #[trigger] <usize as IntoSpec<usize>>::obeys_into_spec(),
     {}
 }
-broadcast use {ax::axiom_usize_into_usize, ax::axiom_usize_obeys_into, vstd::std_specs::hash::group_hash_axioms};
+broadcast use {ax::axiom_usize_into_usize, ax::axiom_usize_obeys_into, vstd::std_specs::hash::group_hash_axioms /*@broadcast_extra*/};
 
 //@item src/lib/vm.rs const MB
 //@item src/lib/arch.rs struct i8086
@@ -69,6 +69,8 @@ pub tracked struct InLog { pub ghost lines: Seq<Seq<u8>> }
 pub uninterp spec fn bytes_of(s: String) -> Seq<u8>;
 pub assume_specification [std::string::String::as_bytes] (s: &String) -> (r: &[u8])
     ensures r@ == bytes_of(*s);
+/// the characters a byte sequence decodes to (uninterpreted; nothing is decoded from nothing)
+pub uninterp spec fn chars_of(b: Seq<u8>) -> Seq<char>;
 pub mod verif_io {
     use vstd::prelude::*;
     use super::OutLog;
@@ -123,9 +125,26 @@ pub mod verif_io {
         requires old(s)@.len() == 0,
         ensures
             r.is_ok() ==> super::bytes_of(*final(s)) == (if old(inp).lines.len() > 0 { old(inp).lines[0] } else { Seq::<u8>::empty() })
+                && final(s)@ == super::chars_of(super::bytes_of(*final(s)))
+                // Ok(n): n is the number of bytes read, 0 exactly at end of input (a pending line is never empty: it holds at least its newline or a character)
+                && r->Ok_0 == super::bytes_of(*final(s)).len()
                 && final(inp).lines == (if old(inp).lines.len() > 0 { old(inp).lines.drop_first() } else { old(inp).lines }),
             r.is_err() ==> final(inp).lines == old(inp).lines,
     { unimplemented!() }
+    // R8: `s == "literal"` on a String compares the characters
+    #[verifier::external_body]
+    pub fn str_eq(a: &String, b: &str) -> (r: bool)
+        ensures r == (a@ == b@),
+    { a == b }
+    // R8: flushing stdout has no effect that is modelled
+    #[verifier::external_body]
+    pub fn flush() -> (r: Result<(), IoError>) { Ok(()) }
+    // R9: a String printed in a message is logged as an (uninterpreted) function of its characters
+    pub uninterp spec fn str_id_of(s: Seq<char>) -> u64;
+    #[verifier::external_body]
+    pub fn str_id(s: &String) -> (r: u64)
+        ensures r == str_id_of(s@),
+    { 0 }
     // R3: format!(..) -- the text of a message is not modelled
     #[verifier::external_body]
     pub fn opaque_string() -> (r: String) { String::new() }
